@@ -268,7 +268,9 @@ class Run:
             elif op == 'sched':
                 t0 = self.now()
                 self.ev('sched-call', who, st[1], st[2], st[3], t0)
-                self.clocks[st[1]].sched(st[2], self.funcs[st[3]])
+                self.clocks[st[1]].sched(
+                    st[2], self.funcs[st[3]] if st[3] in self.funcs
+                    else self.routines[st[3]])
                 self.ev('sched-ret', who, st[1], st[3], self.now())
             elif op == 'sched_abs':
                 self.ev('sched-call', who, st[1], ['abs', st[2]], st[3],
